@@ -29,7 +29,21 @@ def content_for(name, rng):
     base = CONTENTS.get(ext, CONTENTS[".c"] if ext in (".h", ".cc", ".hpp", ".cxx") else CONTENTS[".js"] if ext in (".jsx", ".mjs") else
                         CONTENTS[".py"] if ext == ".pyw" or name in ("BUILD", "BUCK", "WORKSPACE", "SConstruct", "SConscript", "README", "NOTES") else
                         b"just text\n")
-    return base + (b"// v%d\n" % rng.randint(0, 9) if ext not in (".py", ".pyw", ".md", ".txt") else b"# v%d\n" % rng.randint(0, 9))
+    data = base + (b"// v%d\n" % rng.randint(0, 9) if ext not in (".py", ".pyw", ".md", ".txt") else b"# v%d\n" % rng.randint(0, 9))
+    k = rng.random()
+    if k < 0.12:
+        data = data.replace(b"\n", b"\r\n")                      # CRLF
+    elif k < 0.16:
+        data = data.replace(b"\n", b"\r")                        # old Mac line ends
+    elif k < 0.24:
+        data = data + "# caf\xe9 \xfc\xdf\n".encode("latin-1") if ext in (".py", ".pyw") else data + "// caf\xe9 \xfc\xdf\n".encode("latin-1")
+    elif k < 0.28:
+        data = b"\xef\xbb\xbf" + data                          # UTF-8 BOM
+    elif k < 0.31:
+        data = data.rstrip(b"\n")                               # no final newline
+    elif k < 0.33:
+        data = b""
+    return data
 
 
 def random_tree(rng, max_dirs=10, max_files=24):
